@@ -35,6 +35,9 @@ def run(ctx):
         cases.append(mk(ivl=ivl, ivf=1, al=16, pl=16))
     for ivl in (17, 32, 33, 48, 64):
         cases.append(mk(ivf=5, ivl=ivl, al=7, pl=33))       # IVs with an all-zero 16-byte block (or zero-padded tail) behind a non-zero one
+    for ivl in (4, 12, 16, 20, 32):
+        for fam in (6, 7, 8):
+            cases.append(mk(ivf=fam, ivl=ivl, al=5, pl=21))     # IVs ending 00000001 / 00000000 / 00000002 (look like a counter block)
     cases.append(mk(ivf=1, al=3, pl=40, tamper=1))          # 12-byte IV, all 0xff
     cases.append(mk(ivf=3, al=0, pl=33))                    # 12-byte IV ending ff ff ff ff
     cases.append(mk(ivf=2, al=20, pl=20))                   # all-zero IV (the repository test's)
